@@ -22,12 +22,13 @@ RULE = (
 )
 PARTIAL = [
     "Fourier / Wiener: orthonormality is proved over the reals for the continuous integral (C18.fourier_orthonormal, "
-    "C18.wiener_orthonormal); the values are compared with a Float evaluation of the same formulas (tolerance "
-    "1e-12·(1+|argument|)) and the link Float formula <-> real formula is by inspection; the discrete-quadrature error is "
-    "not proved: on the implementation orthonormality is checked with a quadrature that is exact for the products "
-    "(full-period trapezoid)",
+    "C18.wiener_orthonormal) AND for the trapezoid rule on uniform grids, where it is exact — no quadrature error — for "
+    "frequencies below the grid size (C18.fourier_discrete_orthonormal, C18.wiener_discrete_orthonormal); on non-uniform grids "
+    "the quadrature error is not bounded by a theorem. The values are compared with a Float evaluation of the same formulas "
+    "(tolerance 1e-12·(1+|argument|)); the link Float formula <-> real formula is by inspection",
     "Legendre orthogonality is proved for degrees < 16 (exact polynomial integral, tied to the Riemann integral over the "
-    "reals); scipy.special.eval_legendre is taken as Bonnet's recursion",
+    "reals); all degrees would need Rodrigues' formula or the Sturm-Liouville argument for the recurrence-defined model, not "
+    "done; scipy.special.eval_legendre is taken as Bonnet's recursion",
     "scipy.integrate.simpson is a parameter: normalisation is proved for every weight-based quadrature and the "
     "captured squared norms are fed to the model",
     "IEEE rounding of the truncated-power construction is not modelled: tolerance 64·eps·(1+p·max|domain|/h)·max(1,Σ|terms|)",
